@@ -1,5 +1,6 @@
 """C07 — k-mer counting is exact and independent of threads, chunking and partitioning."""
 from .common import *
+import re
 
 EXPLANATION = (
     "Every structural way a k-mer occurrence could be lost, duplicated, split across partitions or "
@@ -104,6 +105,16 @@ def routing_rule(ctx, fc):
             t = t[2]
         alloc = t
     okt = alloc is not None and alloc[0] == "call" and alloc[1].endswith("from_elem") and alloc[3] == SF("n_parts")
+    vt = None
+    for lid_, b_ in fc.binds.items():
+        ty_ = b_.get("ty") or ""
+        mm_ = re.search(r"scc::HashMap<u64, (\w+)", ty_)
+        if mm_ and "Vec<" in ty_:
+            vt = mm_.group(1)
+    ctx.check("C07.K", "count_chunk:count_width", vt in ("u32", "u64", "usize", "u128"),
+              "partition tables count in %s (the width merge parses)" % vt,
+              "the per-chunk tables count in `%s`: a k-mer seen more often than that type holds wraps (release) or panics "
+              "(debug) inside one chunk, while merge parses u32" % vt, fc.fn["sp"])
     ctx.check("C07.K", "count_chunk:table_len", okt, "table has self.n_parts partitions",
               "partition table is `%s`, expected vec![map; self.n_parts] (same field as the divisor)"
               % (show(alloc) if alloc else "?"), line_of(e))
